@@ -401,6 +401,78 @@ def decode_reach(chk, program, rule='DEC-REACH'):
     except (A.Unknown, A.RaiseSignal, teval.EvalUnknown, KeyError, AttributeError, TypeError, AnalysisError, StopIteration) as u:
         chk.unit('decode_reach_not_interpretable', f"{type(u).__name__}: {u}"[:160])
 
+def option_worlds(program):
+    """settings of the decoder's on/off options the rules do not know by name: [{}] plus one world per constructor parameter whose default is False
+    and that the constructor keeps under its own name -- a feature added later must leave the property alone when it is switched on as well"""
+    KNOWN = {'build_network_map'}
+    init = program.fn('decoder', f"{CLS}.__init__")
+    a = init.args
+    pos = a.args[len(a.args) - len(a.defaults):] if a.defaults else []
+    pairs = list(zip(pos, a.defaults)) + [(p_, d_) for p_, d_ in zip(a.kwonlyargs, a.kw_defaults) if d_ is not None]
+    kept = {n.attr for n in ast.walk(init) if isinstance(n, ast.Attribute) and isinstance(n.ctx, ast.Store) and isinstance(n.value, ast.Name) and n.value.id == 'self'}
+    out = [{}]
+    for p_, d_ in pairs:
+        if isinstance(d_, ast.Constant) and d_.value is False and p_.arg not in KNOWN and p_.arg in kept:
+            out.append({p_.arg: True})
+    return out
+
+def no_match_not_decoded(chk, program, rule='DISP'):
+    """a payload for which the PGN's dispatcher selects no definition (it returns None) is not decoded: on the interpreted decode path the message is
+    withheld, under every setting of the decoder's on/off options.  Not interpretable -> no verdict."""
+    from . import absint as A
+    consts = module_consts(program)
+    sf, cf = facts_or_none(program)
+    fn = program.fn('decoder', f"{CLS}._call_decode_function")
+    multi = next((d for d in program.db.defs if len(d.group.defs) > 1 and d.pgn >= 0xFF00), None)
+    pgn = multi.pgn if multi is not None else 65285
+    bad = []
+    try:
+        for world in option_worlds(program):
+            dp = DecodePath(program, runtime_attrs(program, sf, cf, consts, [], []), consts, extra_self=dict(world))
+            r = dp.feed(pgn, f"pgn{pgn}", src=7, no_match=True)
+            if not r.get('decode_args'):
+                raise A.Unknown('the generated decoder was not reached')
+            if r['status'] == 'returned':
+                bad.append(f"options {world or 'default'}: a message is returned for PGN {pgn} although its dispatcher selected no definition")
+    except (A.Unknown, A.RaiseSignal, teval.EvalUnknown, KeyError, AttributeError, TypeError, AnalysisError, StopIteration) as u:
+        chk.unit('no_match_not_interpretable', f"{type(u).__name__}: {u}"[:160])
+        return
+    chk.check(not bad, rule, '_call_decode_function::no-definition-selected-is-not-decoded', file=DEC, line=fn.lineno, func='_call_decode_function',
+              expected='None from the dispatcher -> nothing returned (the payload carries the match values of no definition and the PGN has no fallback)', found='ok' if not bad else bad[:3],
+              detail='' if not bad else 'the payload appears under a definition whose match values it does not carry')
+
+def hash_sees_every_field(chk, program, rule='HASH-DEPS'):
+    """the identity hash is computed from the fields the generated decoder returned -- all of them, absent ones included (a key field whose value is
+    "not available" still has its raw value): on the interpreted decode path, under every setting of the decoder's on/off options, add_data is
+    called while the message still holds exactly those fields, in order.  Not interpretable -> no verdict."""
+    from . import absint as A
+    consts = module_consts(program)
+    sf, cf = facts_or_none(program)
+    fn = program.fn('decoder', f"{CLS}._call_decode_function")
+    d0 = next(d for d in program.db.defs if not d.group.complex and d.pgn != consts['ISO_CLAIM_PGN'] and len(d.group.defs) == 1)
+    def fld(i, pk, raw, val):
+        return A.AObj(id=A.AStr([('lit', f"f{i}")]), raw_value=A.AInt(raw), value=val, part_of_primary_key=pk, name=A.AStr([('lit', f"F{i}")]), unit_of_measurement=None,
+                      physical_quantities=None, type=A.AOpaque('FieldTypes.NUMBER'), description=None)
+    bad = []
+    try:
+        for world in option_worlds(program):
+            fs = [fld(1, True, 255, None), fld(2, False, 3, A.AInt(3)), fld(3, True, 7, A.AInt(7)), fld(4, False, 65535, None)]
+            dp = DecodePath(program, runtime_attrs(program, sf, cf, consts, [], []), consts, extra_self=dict(world, build_network_map=True),
+                            iso=Stub(name=12345, manufacturer_code='Garmin'))
+            r = dp.feed(d0.pgn, d0.id, src=7, fields=fs)
+            if r['status'] != 'returned' or r.get('fields_at_add_data') is None:
+                raise A.Unknown('the message was not returned through add_data')
+            got = r['fields_at_add_data']
+            if not (isinstance(got, list) and len(got) == len(fs) and all(a is b for a, b in zip(got, fs))):
+                ids = [x.attrs['id'].literal() if isinstance(x, A.AObj) and isinstance(x.attrs.get('id'), A.AStr) else '?' for x in (got if isinstance(got, list) else [])]
+                bad.append(f"options {world or 'default'}: add_data sees the fields {ids} of [f1 (key, not available), f2, f3 (key), f4 (not available)]")
+    except (A.Unknown, A.RaiseSignal, teval.EvalUnknown, KeyError, AttributeError, TypeError, AnalysisError, StopIteration) as u:
+        chk.unit('hash_fields_not_interpretable', f"{type(u).__name__}: {u}"[:160])
+        return
+    chk.check(not bad, rule, '_call_decode_function::hash-computed-over-all-decoded-fields', file=DEC, line=fn.lineno, func='_call_decode_function',
+              expected='add_data is called while the message holds every field the generated decoder returned, in order', found='ok' if not bad else bad[:3],
+              detail='' if not bad else 'a key field that is dropped or moved before the hash is computed changes the identity: the same device gets another hash, different devices the same')
+
 class DecodePath:
     """`_decode` and what it calls, run by the abstract interpreter on one decoder object: the configuration is given as attribute values
     (as make_model takes them), messages are fed one after the other with stand-in generated decoders, and after each the observable effects are
@@ -483,7 +555,7 @@ class DecodePath:
         from . import rules_reasm as RR
         return getattr(RR, 'FRAMES_REVERSED', True)
 
-    def feed(self, pgn, mid, src=7, name_int=12345, fast=False, mfr=None, data_items=None, dest=255):
+    def feed(self, pgn, mid, src=7, name_int=12345, fast=False, mfr=None, data_items=None, dest=255, no_match=False, fields=None):
         A = self.A
         program = self.program
         dec = self.dec
@@ -507,6 +579,8 @@ class DecodePath:
                     val_ = A.AInt(raw_)
                 fl.append(A.AObj(id=A.AStr([('lit', f_.dbid)]), value=val_, raw_value=A.AInt(raw_), part_of_primary_key=False))
             msg.attrs['fields'] = A.AList(fl)
+        if fields is not None:
+            msg.attrs['fields'] = A.AList(list(fields))
         FUNC = A.AObj(decode_function=True)
         st = {'entered': False, 'attached': '<none>', 'writes': 0}
         now_after_window = self.now_after_window
@@ -521,6 +595,9 @@ class DecodePath:
                 return msg
             if isinstance(f, ast.Name) and isinstance(env.get(f.id), A.AObj) and env[f.id].attrs.get('decode_function'):      # (also one remembered from an earlier message)
                 st['decode_args'] = [it.expr(a, env) for a in call.args]
+                st['decode_calls'] = st.get('decode_calls', 0) + 1
+                if no_match and st['decode_calls'] == 1:
+                    return None          # the dispatcher of this PGN selects no definition for the payload
                 return msg
             if isinstance(f, ast.Attribute) and f.attr == '_isFastPGN':
                 return bool(fast)
@@ -567,6 +644,8 @@ class DecodePath:
                     bound = dict(zip(names, vals)); bound.update(kw)
                     st['attached'] = bound.get('source_iso_name', '<none>')
                     st['add_data'] = bound
+                    fl_ = msg.attrs.get('fields')
+                    st['fields_at_add_data'] = list(fl_.items) if isinstance(fl_, A.AList) else fl_
                     msg.attrs['source_iso_name'] = st['attached'] if st['attached'] != '<none>' else None
                     return None
                 if recv is msg and f.attr == 'apply_preferred_units':
@@ -621,7 +700,7 @@ class DecodePath:
         now = dec.attrs['source_to_iso_name'].items.get(src) if isinstance(dec.attrs.get('source_to_iso_name'), A.ADict) else None
         return {'status': 'returned' if r is msg else 'filtered', 'stage': None if r is msg else ('_call_decode_function' if st['entered'] else '_decode'),
                 'stored': now is not before, 'attached': self.back(st['attached']), 'attached_raw': st['attached'], 'decode_args': st.get('decode_args'), 'stage_calls': st.get('stage_calls', []), 'map_entry': now, 'writes': st['writes'], 'msg': msg,
-                'add_data': st.get('add_data')}
+                'add_data': st.get('add_data'), 'fields_at_add_data': st.get('fields_at_add_data')}
 
 def outcome_interp(program, attrs, consts, pgn, mid, iso=None, now_after_window=False, extra_self=None):
     """the same question as outcome() -- is a message of (pgn, id) returned, by which stage is it withheld, is the source map written, which
